@@ -172,40 +172,6 @@ mod verif_block_leaves_as {
         assert!(n as u64 == card(a, b) || (card(a, b) > u32::MAX as u64 && n == u32::MAX), "count exact, or saturated when 2^32 is not representable");
     }}
 
-    // ---------------- the Block default methods as compiled for IpBlock / AddressRange ------
-    //@harness bl_ip_block_defaults K fn=<IpBlock_as_Block>::{contains,intersects,is_encompassed,is_equivalent,bounds}
-    verif_harness!{ bl_ip_block_defaults; |a: u128, b: u128, la: u8, pa: bool, c: u128, d: u128, lc: u8, pc: bool, x: u128| {
-        // both variants of both operands: a prefix of any length, or a range with any bounds
-        assume(la <= 128 && lc <= 128);
-        let s = if pa { IpBlock::Prefix(Prefix::new(ad(a), la)) } else { IpBlock::Range(AddressRange::new(ad(a), ad(b))) };
-        let o = if pc { IpBlock::Prefix(Prefix::new(ad(c), lc)) } else { IpBlock::Range(AddressRange::new(ad(c), ad(d))) };
-        let (slo, shi, olo, ohi) = (val(s.min()), val(s.max()), val(o.min()), val(o.max()));
-        assert!(<IpBlock as Block>::contains(&s, ad(x)) == (slo <= x && x <= shi), "contains(x) == lo <= x <= hi");
-        assert!(<IpBlock as Block>::intersects(&s, &o) == (slo <= ohi && shi >= olo), "intersects == the intervals meet");
-        assert!(<IpBlock as Block>::is_encompassed(&s, &o) == (olo <= slo && ohi >= shi), "is_encompassed == interval inclusion");
-        assert!(<IpBlock as Block>::is_equivalent(&s, &o) == (slo == olo && shi == ohi), "is_equivalent == same bounds");
-        assert!(<IpBlock as Block>::bounds(&s) == (s.min(), s.max()), "bounds");
-    }}
-    //@harness bl_addr_range_defaults K fn=<AddressRange_as_Block>::{contains,intersects,is_encompassed,is_equivalent,bounds,sum}
-    verif_harness!{ bl_addr_range_defaults; |a: u128, b: u128, c: u128, d: u128, x: u128| {
-        let s = AddressRange::new(ad(a), ad(b));
-        let o = AddressRange::new(ad(c), ad(d));
-        assert!(<AddressRange as Block>::contains(&s, ad(x)) == (a <= x && x <= b), "contains(x) == lo <= x <= hi");
-        assert!(<AddressRange as Block>::intersects(&s, &o) == (a <= d && b >= c), "intersects == the intervals meet");
-        assert!(<AddressRange as Block>::is_encompassed(&s, &o) == (c <= a && d >= b), "is_encompassed == interval inclusion");
-        assert!(<AddressRange as Block>::is_equivalent(&s, &o) == (a == c && b == d), "is_equivalent == same bounds");
-        assert!(<AddressRange as Block>::bounds(&s) == (ad(a), ad(b)), "bounds");
-        assume(a <= b && c <= d);
-        match <AddressRange as Block>::sum(&s, &o) {
-            Some(u) => {
-                let touch = (a <= d && b >= c) || (b < u128::MAX && b + 1 == c) || (d < u128::MAX && d + 1 == a);
-                assert!(touch, "sum is Some only for overlapping or adjacent blocks");
-                assert!(val(u.min()) == a.min(c) && val(u.max()) == b.max(d), "sum spans both");
-            }
-            None => assert!(!((a <= d && b >= c) || (b < u128::MAX && b + 1 == c) || (d < u128::MAX && d + 1 == a)), "sum is None only for separated blocks"),
-        }
-    }}
-
     // ---------------- lo <= hi at the decoding boundary ------------------------------------
     // ASIdOrRange ::= CHOICE { id INTEGER, range SEQUENCE { min INTEGER, max INTEGER } }
     fn decode_block(buf: &[u8]) -> Option<AsBlock> {
@@ -236,7 +202,7 @@ mod verif_block_leaves_as {
         }
     }}
     // (was a FINDING, repaired by /repo commit 07d3485: "3-1" used to parse to the block AS3-AS1)
-    //@harness bl_as_text_lo_le_hi Kb fn=AsBlock::from_str bound="strings d-d with one decimal digit on each side"
+    //@harness bl_as_text_lo_le_hi Kb fn=AsBlock::from_str bound="strings d-d with one decimal digit on each side" timeout=2400 thorough
     verif_harness!{ #[kani::unwind(6)] bl_as_text_lo_le_hi; |a: u8, b: u8| {
         assume(a >= b'0' && a <= b'9' && b >= b'0' && b <= b'9');
         let buf = [a, b'-', b];
@@ -403,6 +369,40 @@ mod verif_block_leaves_ip {
         match p { Some(p) => assert!(x > 0 && val(p) == x - 1, "previous is x-1"), None => assert!(x == 0, "previous is None only at the minimum") }
     }}
 
+    // ---------------- the Block default methods as compiled for IpBlock / AddressRange ------
+    //@harness bl_ip_block_defaults K fn=<IpBlock_as_Block>::{contains,intersects,is_encompassed,is_equivalent,bounds}
+    verif_harness!{ bl_ip_block_defaults; |a: u128, b: u128, la: u8, pa: bool, c: u128, d: u128, lc: u8, pc: bool, x: u128| {
+        // both variants of both operands: a prefix of any length, or a range with any bounds
+        assume(la <= 128 && lc <= 128);
+        let s = if pa { IpBlock::Prefix(Prefix::new(ad(a), la)) } else { IpBlock::Range(AddressRange::new(ad(a), ad(b))) };
+        let o = if pc { IpBlock::Prefix(Prefix::new(ad(c), lc)) } else { IpBlock::Range(AddressRange::new(ad(c), ad(d))) };
+        let (slo, shi, olo, ohi) = (val(s.min()), val(s.max()), val(o.min()), val(o.max()));
+        assert!(<IpBlock as Block>::contains(&s, ad(x)) == (slo <= x && x <= shi), "contains(x) == lo <= x <= hi");
+        assert!(<IpBlock as Block>::intersects(&s, &o) == (slo <= ohi && shi >= olo), "intersects == the intervals meet");
+        assert!(<IpBlock as Block>::is_encompassed(&s, &o) == (olo <= slo && ohi >= shi), "is_encompassed == interval inclusion");
+        assert!(<IpBlock as Block>::is_equivalent(&s, &o) == (slo == olo && shi == ohi), "is_equivalent == same bounds");
+        assert!(<IpBlock as Block>::bounds(&s) == (s.min(), s.max()), "bounds");
+    }}
+    //@harness bl_addr_range_defaults K fn=<AddressRange_as_Block>::{contains,intersects,is_encompassed,is_equivalent,bounds,sum}
+    verif_harness!{ bl_addr_range_defaults; |a: u128, b: u128, c: u128, d: u128, x: u128| {
+        let s = AddressRange::new(ad(a), ad(b));
+        let o = AddressRange::new(ad(c), ad(d));
+        assert!(<AddressRange as Block>::contains(&s, ad(x)) == (a <= x && x <= b), "contains(x) == lo <= x <= hi");
+        assert!(<AddressRange as Block>::intersects(&s, &o) == (a <= d && b >= c), "intersects == the intervals meet");
+        assert!(<AddressRange as Block>::is_encompassed(&s, &o) == (c <= a && d >= b), "is_encompassed == interval inclusion");
+        assert!(<AddressRange as Block>::is_equivalent(&s, &o) == (a == c && b == d), "is_equivalent == same bounds");
+        assert!(<AddressRange as Block>::bounds(&s) == (ad(a), ad(b)), "bounds");
+        assume(a <= b && c <= d);
+        match <AddressRange as Block>::sum(&s, &o) {
+            Some(u) => {
+                let touch = (a <= d && b >= c) || (b < u128::MAX && b + 1 == c) || (d < u128::MAX && d + 1 == a);
+                assert!(touch, "sum is Some only for overlapping or adjacent blocks");
+                assert!(val(u.min()) == a.min(c) && val(u.max()) == b.max(d), "sum spans both");
+            }
+            None => assert!(!((a <= d && b >= c) || (b < u128::MAX && b + 1 == c) || (d < u128::MAX && d + 1 == a)), "sum is None only for separated blocks"),
+        }
+    }}
+
     // ---------------- lo <= hi at the decoding boundary ------------------------------------
     // IPAddressOrRange ::= CHOICE { addressPrefix BIT STRING, addressRange SEQUENCE { min BIT STRING, max BIT STRING } }
     // (The harnesses call AddressRange::parse_content* on the SEQUENCE content directly: every use of the type
@@ -410,7 +410,7 @@ mod verif_block_leaves_ip {
     // in codegen_get_discriminant.)
     // FINDING (C03, lower bound not above upper bound): SEQUENCE { 1/8, 0/8 } is accepted as the range
     // 1.0.0.0 - 0.255.255.255: AddressRange::parse_content[_with_family] do not check min <= max.
-    //@harness bl_ip_der_lo_le_hi Kb fn=AddressRange::parse_content bound="both BIT STRINGs one octet without unused bits (/8 prefixes), octet values unrestricted"
+    //@harness bl_ip_der_lo_le_hi Kb fn=AddressRange::parse_content bound="both BIT STRINGs one octet without unused bits (/8 prefixes), octet values unrestricted" timeout=2400 thorough
     verif_harness!{ #[kani::unwind(18)] bl_ip_der_lo_le_hi; |a: u8, b: u8| {
         let buf = [0x30u8, 8, 3, 2, 0, a, 3, 2, 0, b];
         let r = bcder::Mode::Der.decode(&buf[..], |cons| cons.take_value_if(Tag::SEQUENCE, AddressRange::parse_content));
@@ -421,7 +421,7 @@ mod verif_block_leaves_ip {
         }
     }}
     // FINDING: same defect in the family-checking variant.
-    //@harness bl_ip_der_family_lo_le_hi Kb fn=AddressRange::parse_content_with_family bound="both BIT STRINGs one octet without unused bits (/8 prefixes), octet values and family unrestricted"
+    //@harness bl_ip_der_family_lo_le_hi Kb fn=AddressRange::parse_content_with_family bound="both BIT STRINGs one octet without unused bits (/8 prefixes), octet values and family unrestricted" timeout=2400 thorough
     verif_harness!{ #[kani::unwind(18)] bl_ip_der_family_lo_le_hi; |a: u8, b: u8, v4: bool| {
         let buf = [0x30u8, 8, 3, 2, 0, a, 3, 2, 0, b];
         let fam = if v4 { AddressFamily::Ipv4 } else { AddressFamily::Ipv6 };
@@ -433,7 +433,7 @@ mod verif_block_leaves_ip {
         }
     }}
 
-    //@harness bl_ip_der_family_bits Kb fn=AddressRange::parse_content_with_family bound="first BIT STRING a /8, second a /8 or a /4 (4 unused bits), octet values and family unrestricted" timeout=900
+    //@harness bl_ip_der_family_bits Kb fn=AddressRange::parse_content_with_family bound="first BIT STRING a /8, second a /8 or a /4 (4 unused bits), octet values and family unrestricted" timeout=2400 thorough
     verif_harness!{ #[kani::unwind(18)] bl_ip_der_family_bits; |a: u8, b: u8, short_max: bool, v4: bool| {
         // decoding is exact: accepted exactly when the expanded range is not inverted, with the expanded bounds
         // (fully symbolic unused-bit counts exhaust CBMC's memory: the first prefix is a /8, the second a /8 or a /4)
